@@ -243,3 +243,82 @@ func unwrapFn(v ssa.Value) ssa.Value {
 		v = ct.X
 	}
 }
+
+// computeNeedNode: parameters that end up as the position node of a diagnostic must be non-nil nodes of the
+// analysed tree; the requirement is pushed to the call sites of warn helpers (same scheme as needPrivate).
+func (e *Engine) computeNeedNode() {
+	e.needNode = map[privKey]bool{}
+	changed := true
+	for changed {
+		changed = false
+		mark := func(fn *ssa.Function, v ssa.Value) {
+			r, ok := rootParam(v, 0)
+			if !ok {
+				return
+			}
+			// only direct flows (no field loads): the parameter itself is the node
+			switch v.(type) {
+			case *ssa.Parameter, *ssa.FreeVar, *ssa.MakeInterface, *ssa.ChangeInterface, *ssa.TypeAssert, *ssa.Extract:
+			default:
+				return
+			}
+			if u, isU := r.(*ssa.FreeVar); isU {
+				_ = u
+				return
+			}
+			idx, ok := paramIndex(fn, r)
+			if !ok || idx < 0 {
+				return
+			}
+			if !isNodeTyped(fn.Params[idx].Type()) {
+				return
+			}
+			k := privKey{fn, idx}
+			if !e.needNode[k] {
+				e.needNode[k] = true
+				changed = true
+			}
+		}
+		for _, key := range e.sortedFuncKeys() {
+			fn := e.funcs[key]
+			if !strings.HasPrefix(key, "checkers.") {
+				continue
+			}
+			for _, b := range fn.Blocks {
+				for _, ins := range b.Instrs {
+					call, ok := ins.(ssa.CallInstruction)
+					if !ok {
+						continue
+					}
+					c := call.Common()
+					callee := c.StaticCallee()
+					if callee == nil {
+						continue
+					}
+					if nodeArg, _, w := isWarnFunc(callee); w && nodeArg >= 0 && nodeArg < len(c.Args) {
+						mark(fn, c.Args[nodeArg])
+						continue
+					}
+					for j := range callee.Params {
+						if e.needNode[privKey{callee, j}] && j < len(c.Args) {
+							mark(fn, c.Args[j])
+						}
+					}
+				}
+			}
+		}
+	}
+}
+
+func (e *Engine) nodeRequires(fn *ssa.Function) []string {
+	var out []string
+	if walkerEntry[fn.Name()] && fn.Signature.Recv() != nil {
+		return nil
+	}
+	for i, p := range fn.Params {
+		if e.needNode[privKey{fn, i}] && p.Name() != "" && p.Name() != "_" {
+			out = append(out, fmt.Sprintf("@warn-node-%s nodeInTree(%s)", p.Name(), p.Name()))
+		}
+	}
+	return out
+}
